@@ -319,6 +319,21 @@ def r20e(F):
 		else:
 			# the partially advanced tip reported by the error
 			out += P4_guarded(F, '20.e', fu, {bi}, okds, False, 'synchronize_listener Err', key='tip=partial@update_chain_tip')
+			# ... and whenever that tip differs from the recorded one: the listeners HAVE been moved there (possibly backwards, to a fork
+			# point with less work than the old tip), so no other condition may keep the recorded tip where it was
+			conds = []
+			for cb, cci in fu.calls():
+				nm = norm(cci.get('t') or cci.get('f') or '').rsplit('::', 1)[-1]
+				if nm in ('eq', 'ne', 'gt', 'ge', 'lt', 'le', 'cmp', 'partial_cmp'):
+					ds_ = call_decisions(fu, [cb], 'bool')
+					for pol in (True, False):
+						pe_ = set()
+						for d_ in ds_:
+							pe_ |= set(d_.true_edges if pol else d_.false_edges)
+						if pe_ and bi not in fu.reach([0], removed_edges=pe_):
+							conds.append((nm, ' '.join(expr_str(ex.of_operand(a)) for a in cci['args']), pol))
+			okc = bool(conds) and all(nm in ('ne', 'eq') and 'block_hash' in txt and pol == (nm == 'ne') for nm, txt, pol in conds)
+			out.append(Result('20.e', okc, ('ok:' if okc else 'guard:') + 'partial-tip-adopted-iff-different', 'on error the tip the listeners were left at is adopted under the condition(s) %s (expected only: its block hash differs from the recorded tip\'s)' % [(nm, txt[-70:]) for nm, txt, pol in conds], 1 + len(conds), where=None if okc else F.where(fu.name, fu.line_of(bi))))
 			okv = 'Err' in v or 'chain_tip' in v
 			out.append(Result('20.e', okv, ('ok:' if okv else 'shape:') + 'partial-tip-source', 'on error chain_tip is set from the tip carried by the error (%s)' % v[:80], 1, where=F.where(fu.name, fu.line_of(bi))))
 	# a `true` result (blocks connected) only with a chain_tip store
